@@ -35,8 +35,8 @@ ASSUMPTIONS = [
     "integral = sum over voxels of data * prod(dimensions / shape), per time step and component",
 ]
 FLOORS = {
-    "quick": {"reduction_object_reused": 300, "resize_conserves": 500, "resize_by_factors": 200, "resize_object_reused": 150, "resize_options_with_key_prefix": 120, "image_born_as_uint8_then_converted": 150, "refine_coarsen_identity": 100, "coarsen_conserves": 100, "axis_reduction": 400, "extrusion": 60, "superpose": 150},
-    "thorough": {"reduction_object_reused": 3000, "resize_conserves": 6000, "resize_by_factors": 2000, "resize_object_reused": 1500, "resize_options_with_key_prefix": 1200, "image_born_as_uint8_then_converted": 1500, "refine_coarsen_identity": 1200, "coarsen_conserves": 1200, "axis_reduction": 5000, "extrusion": 700, "superpose": 1800},
+    "quick": {"resize_with_blank_slab": 60, "reduction_object_reused": 300, "resize_conserves": 500, "resize_by_factors": 200, "resize_object_reused": 150, "resize_options_with_key_prefix": 120, "image_born_as_uint8_then_converted": 150, "refine_coarsen_identity": 100, "coarsen_conserves": 100, "axis_reduction": 400, "extrusion": 60, "superpose": 150},
+    "thorough": {"resize_with_blank_slab": 600, "reduction_object_reused": 3000, "resize_conserves": 6000, "resize_by_factors": 2000, "resize_object_reused": 1500, "resize_options_with_key_prefix": 1200, "image_born_as_uint8_then_converted": 1500, "refine_coarsen_identity": 1200, "coarsen_conserves": 1200, "axis_reduction": 5000, "extrusion": 700, "superpose": 1800},
 }
 
 
@@ -113,6 +113,11 @@ def run_shard(spec, R):
             dtype = [np.float64, np.float32][int(rng.integers(0, 2))]
             shape = (int(rng.integers(1, 25)), int(rng.integers(1, 25)))
             img, arr, dims = image(shape, payload=payload, dtype=dtype)
+            if payload != "scalar" and rng.random() < 0.4:
+                # a blank frame / a component that vanishes identically (sum exactly zero)
+                img.img[..., 0] = 0
+                arr[..., 0] = 0
+                R.count("resize_with_blank_slab")
             if rng.random() < 0.6:
                 tshape = (int(rng.integers(1, shape[0] + 1)), int(rng.integers(1, shape[1] + 1)))
                 kind = "down"
